@@ -43,10 +43,22 @@ def candidate_relation(ref, hint):
     return pairs
 
 
+def gen_params(scratch, name, **kw):
+    src = ['//go:build verif', '', 'package lexer', '', 'const (']
+    for k, v in kw.items():
+        src.append('\t%s = %s' % (k, v))
+    src.append(')')
+    path = scratch.path(name)
+    with open(path, 'w') as f:
+        f.write('\n'.join(src) + '\n')
+    return path
+
+
 def gen_ref_file(scratch, ref, pairs):
     src = ['//go:build verif', '', 'package lexer', '', '// Generated on every run from /verif/ref/ebnf_tokens.py (the documentation) and a product exploration.', '']
     src.append(gogen.gen_delta('refDelta', ref))
     src.append(gogen.gen_label('refLabel', ref))
+    src.append(gogen.gen_label_code('refLabelCode', ref))
     src.append(gogen.gen_pairs('refPairs', pairs))
     path = scratch.path('zz_verif_c05_ref.go')
     with open(path, 'w') as f:
@@ -54,38 +66,74 @@ def gen_ref_file(scratch, ref, pairs):
     return path
 
 
+def scan_files(sc, ref, pairs, **params):
+    reffile = gen_ref_file(sc, ref, pairs)
+    par = gen_params(sc, 'zz_verif_params.go', **params)
+    return [os.path.join(HDIR, 'zz_verif_c05.go'), os.path.join(HDIR, 'zz_verif_scan.go'), reffile, par]
+
+
+def base_cfg(files, entry, tier, **kw):
+    cfg = {
+        'patterns': ['./' + PKG_REL], 'pkg': PKG, 'overlay': overlay_map(PKG_REL, files),
+        'init_pkgs': INIT, 'entry': entry,
+        'summaries': [PKG + '.advanceDFA', PKG + '.refDelta', PKG + '.refLabelCode'],
+        'cross': ['cvc5', 'z3'] if tier == 'thorough' else [],
+        'max_violations': 40,
+    }
+    cfg.update(kw)
+    return cfg
+
+
 def run(tier, rep):
+    thorough = tier == 'thorough'
     with Scratch() as sc:
         ref = ebnf_tokens.reference_dfa()
         hint = impl_hint(sc)
         pairs = candidate_relation(ref, hint)
-        reffile = gen_ref_file(sc, ref, pairs)
-        files = [os.path.join(HDIR, 'zz_verif_c05.go'), reffile]
-        cfg = {
-            'patterns': ['./' + PKG_REL], 'pkg': PKG, 'overlay': overlay_map(PKG_REL, files),
-            'init_pkgs': INIT, 'entry': 'harnessC05Bisim',
-            'summaries': [PKG + '.advanceDFA', PKG + '.refDelta'],
-            'cross': ['z3-new', 'cvc5'] if tier == 'thorough' else [],
-        }
-        res = run_gosym(cfg, sc, 's1')
-        merge_gosym(rep, res, 'S1 bisimulation step: advanceDFA/evalDFA vs documented automaton (all int32 runes, %d related pairs)' % len(pairs))
-        handle_violations(rep, res, files, sc)
         rep.coverage['relation_pairs'] = len(pairs)
         rep.coverage['reference_states'] = ref.n
+        params = dict(scanN=4 if thorough else 3, scanMinN=0, scanHalf=4, scanLexN=8 if thorough else 6)
+        files = scan_files(sc, ref, pairs, **params)
+        # S1: transition function and labels, all states x all int32 runes
+        res = run_gosym(base_cfg(files, 'harnessC05Bisim', tier), sc, 's1')
+        merge_gosym(rep, res, 'S1 bisimulation step: advanceDFA/evalDFA vs documented automaton (all int32 runes, %d related pairs)' % len(pairs))
+        handle_violations(rep, res, files, sc)
+        # S2: lexeme rule for STRING / REGEX
+        res = run_gosym(base_cfg(files, 'harnessC05Lexeme', tier), sc, 's2')
+        merge_gosym(rep, res, 'S2 evalDFA lexeme of every STRING/REGEX text up to %d bytes' % params['scanLexN'])
+        handle_violations(rep, res, files, sc)
+        # S3: the scanning loop over the real two-buffer reader
+        res = run_gosym(base_cfg(files, 'harnessScanLoop', tier, concretize=[PKG + '.advanceDFA']), sc, 's3')
+        merge_gosym(rep, res, 'S3 lexer.New + NextToken loop + two-buffer reader: every text of <= %d bytes in 0x01..0x7F vs reference token stream' % params['scanN'])
+        handle_violations(rep, res, files, sc)
+        rep.assumptions += [
+            'text bytes in 0x01..0x7F for the loop harness (NUL is the reader sentinel; bytes >= 0x80 are covered for crash-freedom under C14)',
+            'io.Reader fills the buffer until the data is exhausted (os.File / strings.Reader behaviour); short reads are outside the claim',
+            'reference automaton: /verif/ref/ebnf_tokens.py (token table of docs/5-definitions.md + skipped elements of docs/6-design.md)',
+            'bounds: loop text length <= %(scanN)d (buffer alignment is the subject of C13), lexeme length <= %(scanLexN)d; S1 has no bound in its domain' % params,
+        ]
 
 
-def handle_violations(rep, res, files, sc):
+def handle_violations(rep, res, files, sc, max_replays=10):
     known = {k['tag']: k for k in open_findings('C05')}
+    seen = {}
+    replays = 0
     for v in res.get('violations', []):
+        kf = [t[3:] for t in v.get('tags') or [] if t.startswith('KF:') and t[3:] in known]
+        key = (v['harness'], v['msg'], tuple(kf))
+        seen[key] = seen.get(key, 0) + 1
+        if seen[key] > 1 or replays >= max_replays:
+            continue
+        replays += 1
         outcome, out = native_replay(PKG_REL, 'lexer', files, v['harness'], v['inputs'], sc)
         rep.coverage['traces_validated_against_impl'] = rep.coverage.get('traces_validated_against_impl', 0) + 1
         reproduced = outcome.startswith('assert-failed') or outcome.startswith('panic')
-        what = '%s: %s [%s] inputs=%s native=%s' % (v['harness'], v['msg'], v['pos'], [(i['name'], i['value']) for i in v['inputs']][:16], outcome)
+        what = '%s: %s [%s] inputs=%s native=%s' % (v['harness'], v['msg'], v['pos'][:200], [(i['name'], i['value']) for i in v['inputs'] or []][:16], outcome)
         if not reproduced:
             rep.inconc('counterexample did not reproduce natively (encoder or stub defect): ' + what)
             continue
-        kf = [t[3:] for t in v.get('tags') or [] if t.startswith('KF:') and t[3:] in known]
         if kf:
             rep.known_finding('%s %s' % (kf[0], known[kf[0]]['what']))
         else:
-            rep.violation(what, {'harness': v['harness'], 'pkg': PKG_REL, 'inputs': v['inputs'], 'msg': v['msg'], 'native': outcome})
+            rep.violation(what, {'harness': v['harness'], 'pkg': PKG_REL, 'inputs': v['inputs'], 'msg': v['msg'], 'native': outcome,
+                                 'text': ''.join(chr(i['value']) for i in (v['inputs'] or []) if i['kind'] == 'byte')})
